@@ -3,7 +3,7 @@
 use drv::*;
 
 const OPS: &[&str] = &[
-    "neg", "abs", "add", "sub", "mul", "div", "mul_int", "div_int", "add_r", "sub_r", "mul_r",
+    "signum", "npow2", "neg", "abs", "add", "sub", "mul", "div", "mul_int", "div_int", "add_r", "sub_r", "mul_r",
     "div_r", "mul_int_r", "div_int_r",
 ];
 
@@ -16,7 +16,7 @@ where
     let i: F::Bits = <F::Bits as BitsIo>::from_u128(b);
     ev.begin(op, lay);
     ev.arg(a);
-    if op != "neg" && op != "abs" {
+    if op != "neg" && op != "abs" && op != "signum" && op != "npow2" {
         ev.arg(b);
     }
     ev.sep();
@@ -33,6 +33,14 @@ where
                 ev.na();
                 ev.na();
             }
+        }
+        "signum" => {
+            ev.rec_v(&mut || tb(x.x_signum()));
+        }
+        "npow2" => {
+            ev.rec_s(&mut || tbs(x.x_checked_next_power_of_two()));
+            ev.rec_v(&mut || tb(x.x_next_power_of_two()));
+            ev.rec_b(&mut || x.x_is_power_of_two());
         }
         "abs" => {
             ev.rec_s(&mut || tbs(x.x_checked_abs()));
@@ -190,6 +198,9 @@ where
         do_op::<F>(ev, lay, "neg", a, 0);
         if F::IS_SIGNED {
             do_op::<F>(ev, lay, "abs", a, 0);
+            do_op::<F>(ev, lay, "signum", a, 0);
+        } else {
+            do_op::<F>(ev, lay, "npow2", a, 0);
         }
         let b = if rng.chance(1, 2) { gen_add_partner(&mut rng, lay, a, false) } else { gen_bits(&mut rng, lay) };
         do_op::<F>(ev, lay, "add", a, b);
